@@ -1482,6 +1482,16 @@ def _iscomplexobj(I, a, k):
     return NotImplemented
 
 
+@model(np.isrealobj)
+def _isrealobj(I, a, k):
+    x = a[0]
+    if isinstance(x, SArr):
+        return x.dtype.kind != "c"
+    if isinstance(x, SV):
+        return True
+    return NotImplemented
+
+
 @model(np.isscalar)
 def _isscalar(I, a, k):
     x = a[0]
